@@ -6,7 +6,9 @@ Deterministic in (sentence, seed, options).  No parsing logic.
 
 ID_BASIC = ['a', 'b', 'c', 'd', 'e', 'f', 'g', 'h']
 ID_RICH = ['a', 'b', 'x1', 'a5', '$', '$a', 'a$', '_', 'é', 'Ω', 'á',
-           'of', 'let', 'undefined', 'arguments', 'getx', 'sety', 'iff', 'ins']
+           'of', 'let', 'undefined', 'arguments', 'getx', 'sety', 'iff', 'ins',
+           # a reserved word continued by $ / _ / a digit is an identifier
+           'this$1', 'in$', 'do_', 'new0', '$if']
 IDN_BASIC = ['p', 'q', 'r']
 IDN_RICH = ['p', 'q', 'if', 'in', 'return', 'class', 'get', 'set', 'function',
             'this', 'null', 'new', 'typeof', 'do', 'instanceof', '$', 'x1']
